@@ -1,10 +1,953 @@
-//! Family `bump` — stub (replaced by the unit that owns this family).
+//! Family `bump` (C11): histories over the real `naijascript::arena::Arena` (debug build: the
+//! `debug::Arena` wrapper around `bump::Arena`), driven through its public `Allocator` impl,
+//! `reset`, `decommit`, `offset` and the read-only hooks `arena_commit/arena_capacity/arena_base`.
+//!
+//! Protocol (one request per line, one answer per line; `o/c` = `off=<offset> commit=<commit>`):
+//! ```text
+//! new <cap> <page> [<basemod>]   -> cap=<capacity> basemod=<base % 65536>
+//!        a fresh arena; the harness steers the reservation so that base % 65536 == page * 4096
+//!        (best effort; the real residue is reported, the optional third word is for the model)
+//! alloc|zalloc <bytes> <align>   -> ok beg=<off> len=<n> mod=<addr % align> o/c sum=<digest> | err o/c
+//! grow <blk> <newSize>           -> ok beg=<off> len=<n> moved=<0|1> o/c sum=<digest> | err o/c
+//! shrink <blk> <newSize>         -> ok beg=<off> len=<n> moved=0 o/c            (tail block only)
+//! mark                           -> o/c          remember the offset as mark number k (0-based)
+//! reset <markNo>                 -> o/c          only to a mark at or below the offset
+//! decommit                       -> o/c
+//! borrow | release               -> o/c          scratch protocol on this arena: save offset |
+//!                                                reset(saved) + decommit()
+//! fill <blk> <seed>              -> ok           the owner rewrites its block
+//! sum <blk>                      -> <digest> | unreadable      (also for blocks given back)
+//! peek <off> <len>               -> <digest> | empty           raw bytes, clipped to commit
+//! vec <esz> <n>                  -> ok beg= len= caps=<c1,c2,..> o/c sum= | err caps=.. o/c | ok none o/c
+//!        `Vec<uN,&Arena>::new_in`, n pushes (growth through `Allocator::grow`), buffer kept as block
+//! vpush <blk> <n>                -> same         re-adopt a `vec` block as a full Vec, push n more
+//! ```
+//! Block numbers count the `alloc/zalloc/vec` requests of the history (failed ones included).
+//! After every successful alloc/grow/vec step the block is filled with a pattern derived from its
+//! seed (initially its number); `sum=` is taken before that fill, so it shows what the arena left
+//! there (debug fills, zeroes, preserved prefix). Requests outside the allocator's contract are
+//! answered `bad-op` and not executed.
+//!
+//! `run` evaluates an implementation-level oracle that needs no model: every live block inside the
+//! committed prefix of the reservation, aligned *absolutely*, pairwise disjoint, pattern intact
+//! after every operation; a fresh block begins at the first aligned address at or above the old
+//! offset; failure only when that block does not fit, and then offset/commit unchanged; grow
+//! preserves the prefix and stays in place at the tail; zeroed blocks are zero. Failures go to
+//! stderr as `ORACLE-FAIL <line> <what>`.
 
-pub fn main(_args: &[String]) -> i32 {
-    eprintln!("family bump: not built yet");
-    2
+use std::alloc::{Allocator, Layout};
+use std::ptr::NonNull;
+
+use naijascript::arena::Arena;
+use naijascript::arena::verif_hooks as hooks;
+
+use crate::util::{self, Out, Rng};
+
+pub fn main(args: &[String]) -> i32 {
+    match args.first().map(String::as_str) {
+        Some("gen") => generate(&args[1..]),
+        Some("run") => run(),
+        _ => {
+            eprintln!("usage: nvh bump gen --seed S --n N [--maxlen L] [--bias align] | nvh bump run < requests");
+            2
+        }
+    }
 }
 
-/// Constants/tables of the compiled crate this family wants in `nvh dump-tables`
-/// (JSON key, JSON value text).
-pub fn dump_tables(_out: &mut Vec<(String, String)>) {}
+/// Constants observed on the compiled crate (debug build) for `Gen/Arena.lean`.
+pub fn dump_tables(out: &mut Vec<(String, String)>) {
+    let probe = || -> Option<(usize, u8, u8, usize)> {
+        let a = Arena::new(1).ok()?;
+        let chunk = hooks::arena_capacity(&a);
+        let base = hooks::arena_base(&a) as *const u8;
+        // first allocation commits one chunk (fresh pages read as zero), the second one runs the
+        // debug fill over [offset, end + guard)
+        a.allocate(Layout::from_size_align(1, 1).ok()?).ok()?;
+        a.allocate(Layout::from_size_align(1, 1).ok()?).ok()?;
+        let rd = |i: usize| unsafe { base.add(i).read_volatile() };
+        let alloc_fill = rd(1);
+        let mut guard = 0usize;
+        while 2 + guard < chunk && rd(2 + guard) == alloc_fill {
+            guard += 1;
+        }
+        unsafe { a.reset(0) };
+        let free_fill = rd(0);
+        Some((chunk, alloc_fill, free_fill, guard))
+    };
+    if let Some((chunk, af, ff, guard)) = probe() {
+        out.push(("arena_chunk".into(), chunk.to_string()));
+        out.push(("arena_alloc_fill".into(), af.to_string()));
+        out.push(("arena_free_fill".into(), ff.to_string()));
+        out.push(("arena_guard".into(), guard.to_string()));
+    }
+}
+
+// ------------------------------------------------------------------------------------------------
+// shared definitions of the protocol (the Lean driver has the same ones)
+
+const CHUNK: usize = 65536;
+const MAX_ALIGN: usize = 65536;
+const MAX_BYTES: usize = 1 << 40;
+
+fn pat(seed: u64, j: usize) -> u8 {
+    let j = j as u64;
+    (seed.wrapping_mul(131).wrapping_add(j.wrapping_mul(7)).wrapping_add((j >> 8).wrapping_mul(13)).wrapping_add(17) & 0xFF) as u8
+}
+
+fn sampled(beg: usize, len: usize, k: usize) -> bool {
+    if len <= 512 || k < 256 || k >= len - 256 || k % 509 == 0 {
+        return true;
+    }
+    let o = (beg + k) % CHUNK;
+    o < 64 || o >= CHUNK - 64
+}
+
+fn digest_at(base: *const u8, beg: usize, len: usize) -> String {
+    let mut h: u64 = 0xcbf2_9ce4_8422_2325;
+    for k in 0..len {
+        if sampled(beg, len, k) {
+            let b = unsafe { base.add(beg + k).read_volatile() };
+            h ^= b as u64;
+            h = h.wrapping_mul(0x0000_0100_0000_01b3);
+        }
+    }
+    format!("{h:016x}")
+}
+
+/// std's `RawVec::grow_amortized` policy (modelled, not verified; the answer carries the observed
+/// capacities so a change of policy shows up as such).
+fn next_cap(cap: usize, len: usize, esz: usize) -> usize {
+    let min_nz = if esz == 1 { 8 } else if esz <= 1024 { 4 } else { 1 };
+    (cap * 2).max(len + 1).max(min_nz)
+}
+
+// ------------------------------------------------------------------------------------------------
+// generator
+
+const ALIGNS: &[usize] = &[1, 1, 1, 2, 4, 8, 8, 8, 16, 16, 32, 64, 128, 256, 512, 1024, 2048, 4096, 4096, 8192, 8192, 16384, 32768, 65536, 65536];
+const CAPS: &[usize] = &[1, 65536, 65536, 65537, 100000, 131072, 131072, 196608, 262144];
+
+struct GenSt {
+    cap: usize,
+    base: usize,
+    off: usize,
+    commit: usize,
+    blocks: Vec<(usize, usize, usize, bool, bool)>, // beg, len, align, live, is_vec
+    marks: Vec<usize>,
+    borrows: Vec<usize>,
+}
+
+impl GenSt {
+    fn beg(&self, align: usize) -> usize {
+        (self.base + self.off + align - 1) / align * align - self.base
+    }
+    fn alloc(&mut self, bytes: usize, align: usize, is_vec: bool) -> bool {
+        let beg = self.beg(align);
+        let end = beg + bytes;
+        if end > self.cap {
+            self.blocks.push((0, 0, align, false, false));
+            return false;
+        }
+        self.commit = self.commit.max((end + CHUNK - 1) / CHUNK * CHUNK);
+        self.off = end;
+        self.blocks.push((beg, bytes, align, true, is_vec));
+        true
+    }
+    fn kill_above(&mut self, m: usize) {
+        for b in &mut self.blocks {
+            if b.0 + b.1 > m {
+                b.3 = false;
+            }
+        }
+    }
+    fn live(&self) -> Vec<usize> {
+        (0..self.blocks.len()).filter(|&i| self.blocks[i].3).collect()
+    }
+}
+
+fn pick_size(rng: &mut Rng, g: &GenSt, align: usize) -> usize {
+    let remaining = g.cap.saturating_sub(g.beg(align));
+    let to_commit = g.commit.saturating_sub(g.beg(align));
+    let c = rng.below(100);
+    let base: usize = match c {
+        0..=24 => *rng.pick(&[0usize, 1, 2, 7, 8, 9, 15, 16, 17, 24, 100, 127, 128, 129, 130, 255, 256, 257]),
+        25..=34 => *rng.pick(&[align.saturating_sub(1), align, align + 1]),
+        35..=44 => *rng.pick(&[4095usize, 4096, 4097, 8191, 8192, 8193]),
+        45..=59 => *rng.pick(&[65535usize, 65536, 65537, 65536 - 128, 65536 - 129, 65536 - 127, 131071, 131072, 131073]),
+        60..=74 => *rng.pick(&[remaining.saturating_sub(1), remaining, remaining + 1, remaining.saturating_sub(128), remaining / 2]),
+        75..=84 => *rng.pick(&[to_commit.saturating_sub(1), to_commit, to_commit + 1, to_commit.saturating_sub(128), to_commit.saturating_sub(127), to_commit.saturating_sub(129)]),
+        85..=89 => *rng.pick(&[g.cap.saturating_sub(1), g.cap, g.cap + 1]),
+        _ => rng.below(3000) as usize,
+    };
+    base
+}
+
+fn generate(args: &[String]) -> i32 {
+    let seed = util::opt_u64(args, "--seed", 1);
+    let n = util::opt_u64(args, "--n", 1000);
+    let maxlen = util::opt_u64(args, "--maxlen", 40);
+    let bias_align = util::opt(args, "--bias") == Some("align");
+    let mut rng = Rng::new(seed ^ 0xC11);
+    let mut out = Out::new();
+    for _ in 0..n {
+        let len = 1 + rng.below(maxlen);
+        let cap_req = *rng.pick(CAPS);
+        let page = if rng.chance(1, 4) { 0 } else { rng.below(16) as usize };
+        out.line(&format!("new {cap_req} {page}"));
+        let cap = (cap_req.max(1) + CHUNK - 1) / CHUNK * CHUNK;
+        let mut g = GenSt { cap, base: page * 4096, off: 0, commit: 0, blocks: vec![], marks: vec![], borrows: vec![] };
+        for _ in 0..len {
+            let live = g.live();
+            let tail: Option<usize> = live.iter().copied().find(|&i| g.blocks[i].0 + g.blocks[i].1 == g.off);
+            match rng.below(100) {
+                0..=29 => {
+                    let align = if bias_align { *rng.pick(&[4096usize, 8192, 16384, 32768, 65536]) } else { *rng.pick(ALIGNS) };
+                    let bytes = pick_size(&mut rng, &g, align);
+                    let z = rng.chance(1, 4);
+                    out.line(&format!("{} {bytes} {align}", if z { "zalloc" } else { "alloc" }));
+                    g.alloc(bytes, align, false);
+                }
+                30..=44 if !live.is_empty() => {
+                    // grow: prefer the tail block half of the time
+                    let b = match tail {
+                        Some(t) if rng.chance(1, 2) => t,
+                        _ => *rng.pick(&live),
+                    };
+                    let (beg, blen, align, _, _) = g.blocks[b];
+                    let extra = pick_size(&mut rng, &g, if beg + blen == g.off { 1 } else { align });
+                    let new = if rng.chance(1, 8) { blen } else if beg + blen == g.off { blen + extra } else { extra.max(blen) };
+                    out.line(&format!("grow {b} {new}"));
+                    if beg + blen == g.off {
+                        if g.off + (new - blen) <= g.cap {
+                            g.off += new - blen;
+                            g.commit = g.commit.max((g.off + CHUNK - 1) / CHUNK * CHUNK);
+                            g.blocks[b].1 = new;
+                        }
+                    } else {
+                        let nb = g.beg(align);
+                        if nb + new <= g.cap {
+                            g.off = nb + new;
+                            g.commit = g.commit.max((g.off + CHUNK - 1) / CHUNK * CHUNK);
+                            g.blocks[b].0 = nb;
+                            g.blocks[b].1 = new;
+                        }
+                    }
+                }
+                45..=51 if tail.is_some() => {
+                    let b = tail.unwrap();
+                    let blen = g.blocks[b].1;
+                    let new = *rng.pick(&[0usize, blen / 2, blen.saturating_sub(1), blen]);
+                    out.line(&format!("shrink {b} {new}"));
+                    g.off = g.blocks[b].0 + new;
+                    g.blocks[b].1 = new;
+                    let m = g.off;
+                    let keep = b;
+                    for (i, bl) in g.blocks.iter_mut().enumerate() {
+                        if i != keep && bl.0 + bl.1 > m {
+                            bl.3 = false;
+                        }
+                    }
+                }
+                52..=58 => {
+                    out.line("mark");
+                    g.marks.push(g.off);
+                }
+                59..=67 if !g.marks.is_empty() => {
+                    let k = rng.below(g.marks.len() as u64) as usize;
+                    out.line(&format!("reset {k}"));
+                    if g.marks[k] <= g.off {
+                        g.off = g.marks[k];
+                        g.kill_above(g.off);
+                    }
+                }
+                68..=72 => {
+                    out.line("decommit");
+                    g.commit = g.commit.min((g.off + CHUNK - 1) / CHUNK * CHUNK);
+                }
+                73..=76 => {
+                    out.line("borrow");
+                    g.borrows.push(g.off);
+                }
+                77..=81 if !g.borrows.is_empty() => {
+                    out.line("release");
+                    let s = g.borrows.pop().unwrap();
+                    if s <= g.off {
+                        g.off = s;
+                        g.kill_above(s);
+                        g.commit = g.commit.min((g.off + CHUNK - 1) / CHUNK * CHUNK);
+                    }
+                }
+                82..=84 if !g.blocks.is_empty() => {
+                    let b = rng.below(g.blocks.len() as u64);
+                    out.line(&format!("fill {b} {}", rng.below(1000)));
+                }
+                85..=88 if !g.blocks.is_empty() => {
+                    let b = rng.below(g.blocks.len() as u64);
+                    out.line(&format!("sum {b}"));
+                }
+                89..=92 => {
+                    let around = *rng.pick(&[g.off, g.off.saturating_sub(64), g.commit.saturating_sub(200), 0, g.marks.last().copied().unwrap_or(0)]);
+                    out.line(&format!("peek {around} {}", rng.pick(&[64usize, 128, 129, 256, 300])));
+                }
+                93..=96 => {
+                    let esz = *rng.pick(&[1usize, 1, 2, 4, 8]);
+                    let cnt = *rng.pick(&[0usize, 1, 5, 9, 17, 33, 100, 1000, 5000, 70000 / esz]);
+                    out.line(&format!("vec {esz} {cnt}"));
+                    // approximate effect: final capacity by the growth policy
+                    let mut capv = 0usize;
+                    let mut l = 0usize;
+                    while l < cnt {
+                        if l == capv {
+                            capv = next_cap(capv, l, esz);
+                        }
+                        l = capv.min(cnt);
+                    }
+                    if capv == 0 {
+                        g.blocks.push((0, 0, esz, false, false));
+                    } else {
+                        g.alloc(capv * esz, esz, true);
+                    }
+                }
+                _ => {
+                    let vecs: Vec<usize> = live.iter().copied().filter(|&i| g.blocks[i].4).collect();
+                    if vecs.is_empty() {
+                        let align = *rng.pick(&[1usize, 2, 4, 8, 16]);
+                        let bytes = rng.below(200) as usize;
+                        out.line(&format!("alloc {bytes} {align}"));
+                        g.alloc(bytes, align, false);
+                    } else {
+                        let b = *rng.pick(&vecs);
+                        let cnt = *rng.pick(&[1usize, 3, 40, 3000]);
+                        out.line(&format!("vpush {b} {cnt}"));
+                        // effect not tracked precisely: the block moves unless it is the tail
+                        let (beg, blen, align, _, _) = g.blocks[b];
+                        let esz = align;
+                        let mut capv = blen / esz;
+                        let target = capv + cnt;
+                        while capv < target {
+                            capv = next_cap(capv, capv, esz);
+                        }
+                        let new = capv * esz;
+                        if beg + blen == g.off {
+                            if g.off + (new - blen) <= g.cap {
+                                g.off += new - blen;
+                                g.blocks[b].1 = new;
+                            }
+                        } else {
+                            let nb = g.beg(align);
+                            if nb + new <= g.cap {
+                                g.off = nb + new;
+                                g.blocks[b].0 = nb;
+                                g.blocks[b].1 = new;
+                            }
+                        }
+                        g.commit = g.commit.max((g.off + CHUNK - 1) / CHUNK * CHUNK);
+                    }
+                }
+            }
+        }
+        // close every history with a look at all blocks
+        for b in 0..g.blocks.len().min(6) {
+            out.line(&format!("sum {b}"));
+        }
+    }
+    0
+}
+
+// ------------------------------------------------------------------------------------------------
+// runner + oracle
+
+#[derive(Clone)]
+struct Blk {
+    beg: usize,
+    len: usize,
+    align: usize,
+    seed: u64,
+    created: bool,
+    live: bool,
+    esz: usize, // 0 = not a Vec buffer
+}
+
+struct H {
+    arena: Option<Box<Arena>>,
+    pads: Vec<(*mut libc::c_void, usize)>,
+    base: usize,
+    cap: usize,
+    blocks: Vec<Blk>,
+    marks: Vec<usize>,
+    borrows: Vec<usize>,
+}
+
+impl H {
+    fn new() -> Self {
+        H { arena: None, pads: vec![], base: 0, cap: 0, blocks: vec![], marks: vec![], borrows: vec![] }
+    }
+    fn arena(&self) -> &Arena {
+        self.arena.as_ref().unwrap()
+    }
+    fn off(&self) -> usize {
+        self.arena().offset()
+    }
+    fn commit(&self) -> usize {
+        hooks::arena_commit(self.arena())
+    }
+    fn oc(&self) -> String {
+        format!("off={} commit={}", self.off(), self.commit())
+    }
+    fn drop_arena(&mut self) {
+        self.arena = None;
+        for (p, l) in self.pads.drain(..) {
+            unsafe { libc::munmap(p, l) };
+        }
+    }
+    fn bptr(&self, beg: usize) -> *mut u8 {
+        (self.base + beg) as *mut u8
+    }
+    fn spec_beg(&self, off: usize, align: usize) -> usize {
+        (self.base + off + align - 1) / align * align - self.base
+    }
+    fn write_pattern(&self, b: &Blk) {
+        let p = self.bptr(b.beg);
+        for j in 0..b.len {
+            unsafe { p.add(j).write_volatile(pat(b.seed, j)) };
+        }
+    }
+    fn kill_above(&mut self, m: usize, except: Option<usize>) {
+        for (i, b) in self.blocks.iter_mut().enumerate() {
+            if Some(i) != except && b.live && b.beg + b.len > m {
+                b.live = false;
+            }
+        }
+    }
+
+    /// The model-free oracle over all live blocks.
+    fn check_all(&self) -> Option<String> {
+        let off = self.off();
+        let commit = self.commit();
+        if !(off <= commit && commit <= self.cap && commit % CHUNK == 0) {
+            return Some(format!("arena bookkeeping off={off} commit={commit} cap={}", self.cap));
+        }
+        let mut ranges: Vec<(usize, usize, usize)> = vec![];
+        for (i, b) in self.blocks.iter().enumerate() {
+            if !b.live {
+                continue;
+            }
+            if (self.base + b.beg) % b.align != 0 {
+                return Some(format!("misaligned block {i}: addr mod {} = {}", b.align, (self.base + b.beg) % b.align));
+            }
+            if b.beg + b.len > self.cap {
+                return Some(format!("out-of-reservation block {i}: [{}, {}) cap {}", b.beg, b.beg + b.len, self.cap));
+            }
+            if b.beg + b.len > off || b.beg + b.len > commit {
+                return Some(format!("block {i} [{}, {}) above offset {off} / commit {commit}", b.beg, b.beg + b.len));
+            }
+            if b.len > 0 {
+                ranges.push((b.beg, b.len, i));
+            }
+        }
+        ranges.sort();
+        for w in ranges.windows(2) {
+            if w[0].0 + w[0].1 > w[1].0 {
+                return Some(format!("overlap of live blocks {} and {}", w[0].2, w[1].2));
+            }
+        }
+        for (i, b) in self.blocks.iter().enumerate() {
+            if !b.live {
+                continue;
+            }
+            let p = self.bptr(b.beg);
+            for j in 0..b.len {
+                if unsafe { p.add(j).read_volatile() } != pat(b.seed, j) {
+                    return Some(format!("clobbered live block {i} at byte {j}"));
+                }
+            }
+        }
+        None
+    }
+}
+
+fn run() -> i32 {
+    util::silence_panics();
+    let lines = util::stdin_lines();
+    let mut out = Out::new();
+    let mut h = H::new();
+    let mut oracle_fails = 0u64;
+    let mut skipping = false;
+    for (lineno, line) in lines.iter().enumerate() {
+        let w: Vec<&str> = line.split_whitespace().collect();
+        if matches!(w.first(), Some(&"new")) {
+            skipping = false;
+        }
+        if skipping {
+            out.line("skipped");
+            continue;
+        }
+        match util::catch(|| step(&w, &mut h)) {
+            Ok((ans, oracle)) => {
+                out.line(&ans);
+                if let Some(msg) = oracle {
+                    oracle_fails += 1;
+                    eprintln!("ORACLE-FAIL {} {}", lineno + 1, msg);
+                }
+            }
+            Err(msg) => {
+                out.line("panic");
+                eprintln!("PANIC {} {}", lineno + 1, msg.replace('\n', " "));
+                eprintln!("ORACLE-FAIL {} panic in the arena: {}", lineno + 1, msg.replace('\n', " "));
+                oracle_fails += 1;
+                skipping = true;
+            }
+        }
+    }
+    h.drop_arena();
+    eprintln!("ORACLE-SUMMARY fails={oracle_fails} lines={}", lines.len());
+    0
+}
+
+/// Create the arena so that `base % 65536 == page * 4096` (best effort; the caller reports the
+/// real residue). `mmap(NULL, ..)` places a mapping in the highest free gap that fits, so: reserve
+/// a larger region, punch a hole of exactly the arena's size at the wanted residue, and plug every
+/// other gap the kernel prefers until the arena lands in the hole.
+fn steer(h: &mut H, cap_req: usize, page: usize) -> Box<Arena> {
+    let probe = Arena::new(cap_req).unwrap();
+    let cap = hooks::arena_capacity(&probe);
+    drop(probe);
+    let map_none = |len: usize| unsafe {
+        libc::mmap(std::ptr::null_mut(), len, libc::PROT_NONE, libc::MAP_PRIVATE | libc::MAP_ANONYMOUS, -1, 0)
+    };
+    let total = cap + 2 * MAX_ALIGN;
+    let region = map_none(total);
+    if region == libc::MAP_FAILED {
+        return Box::new(Arena::new(cap_req).unwrap());
+    }
+    let a = region as usize;
+    let mut t = a / MAX_ALIGN * MAX_ALIGN + page * 4096;
+    if t < a {
+        t += MAX_ALIGN;
+    }
+    unsafe { libc::munmap(t as *mut libc::c_void, cap) };
+    if t > a {
+        h.pads.push((a as *mut libc::c_void, t - a));
+    }
+    h.pads.push(((t + cap) as *mut libc::c_void, a + total - (t + cap)));
+    let mut arena = Box::new(Arena::new(cap_req).unwrap());
+    for _ in 0..32 {
+        if hooks::arena_base(&arena) as usize == t {
+            break;
+        }
+        drop(arena);
+        let plug = map_none(cap);
+        if plug != libc::MAP_FAILED {
+            if plug as usize == t {
+                // the plug itself took the hole: give it back and stop plugging
+                unsafe { libc::munmap(plug, cap) };
+            } else {
+                h.pads.push((plug, cap));
+            }
+        }
+        arena = Box::new(Arena::new(cap_req).unwrap());
+    }
+    arena
+}
+
+fn pow2(x: usize) -> bool {
+    x != 0 && x & (x - 1) == 0
+}
+
+type Ans = (String, Option<String>);
+
+fn bad() -> Ans {
+    ("bad-op".to_string(), None)
+}
+
+fn step(w: &[&str], h: &mut H) -> Ans {
+    if w.first() != Some(&"new") && h.arena.is_none() {
+        return bad();
+    }
+    match w {
+        ["new", cap, page] | ["new", cap, page, _] => {
+            let (Ok(cap), Ok(page)) = (cap.parse::<usize>(), page.parse::<usize>()) else { return bad() };
+            if cap > (1 << 30) || page > 15 {
+                return bad();
+            }
+            h.drop_arena();
+            h.blocks.clear();
+            h.marks.clear();
+            h.borrows.clear();
+            let arena = steer(h, cap, page);
+            h.base = hooks::arena_base(&arena) as usize;
+            h.cap = hooks::arena_capacity(&arena);
+            h.arena = Some(arena);
+            let mut oracle = None;
+            if h.off() != 0 || h.commit() != 0 || h.cap < cap.max(1) || h.cap % CHUNK != 0 || h.cap >= cap.max(1) + CHUNK {
+                oracle = Some(format!("fresh arena: off={} commit={} cap={} for request {cap}", h.off(), h.commit(), h.cap));
+            }
+            (format!("cap={} basemod={}", h.cap, h.base % MAX_ALIGN), oracle)
+        }
+        [op @ ("alloc" | "zalloc"), bytes, align] => {
+            let (Ok(bytes), Ok(align)) = (bytes.parse::<usize>(), align.parse::<usize>()) else { return bad() };
+            if !pow2(align) || align > MAX_ALIGN || bytes > MAX_BYTES {
+                return bad();
+            }
+            let Ok(layout) = Layout::from_size_align(bytes, align) else { return bad() };
+            let zeroed = *op == "zalloc";
+            let id = h.blocks.len();
+            let (off0, commit0) = (h.off(), h.commit());
+            let r = if zeroed { h.arena().allocate_zeroed(layout) } else { h.arena().allocate(layout) };
+            let want = h.spec_beg(off0, align);
+            match r {
+                Ok(p) => {
+                    let ptr = p.as_ptr() as *mut u8 as usize;
+                    let len = p.len();
+                    let beg = ptr.wrapping_sub(h.base);
+                    let mut oracle = None;
+                    if ptr % align != 0 {
+                        oracle = Some(format!("misaligned block {id}: addr mod {align} = {}", ptr % align));
+                    } else if ptr < h.base || beg + len > h.cap {
+                        oracle = Some(format!("out-of-reservation block {id}: [{beg}, {}) cap {}", beg.wrapping_add(len), h.cap));
+                    } else if len != bytes {
+                        oracle = Some(format!("block {id} has {len} bytes for a request of {bytes}"));
+                    } else if beg + len > h.commit() {
+                        oracle = Some(format!("block {id} ends above commit {}", h.commit()));
+                    } else if beg < off0 {
+                        oracle = Some(format!("block {id} begins at {beg} below the old offset {off0}"));
+                    } else if beg != want {
+                        oracle = Some(format!("block {id} begins at {beg}, first aligned offset at or above {off0} is {want}"));
+                    } else if h.off() != beg + len {
+                        oracle = Some(format!("offset {} after block [{beg}, {})", h.off(), beg + len));
+                    }
+                    if oracle.is_some() && (ptr < h.base || beg.saturating_add(len) > h.commit()) {
+                        // not safe to touch: record as dead
+                        h.blocks.push(Blk { beg: 0, len: 0, align, seed: id as u64, created: false, live: false, esz: 0 });
+                        return (format!("ok beg={beg} len={len} mod={} {}", ptr % align, h.oc()), oracle);
+                    }
+                    if zeroed && oracle.is_none() {
+                        let bp = h.bptr(beg);
+                        if (0..len).any(|j| unsafe { bp.add(j).read_volatile() } != 0) {
+                            oracle = Some(format!("zeroed block {id} is not zero"));
+                        }
+                    }
+                    let sum = digest_at(h.base as *const u8, beg, len);
+                    let b = Blk { beg, len, align, seed: id as u64, created: true, live: true, esz: 0 };
+                    h.write_pattern(&b);
+                    h.blocks.push(b);
+                    let oracle = oracle.or_else(|| h.check_all());
+                    (format!("ok beg={beg} len={len} mod={} {} sum={sum}", ptr % align, h.oc()), oracle)
+                }
+                Err(_) => {
+                    h.blocks.push(Blk { beg: 0, len: 0, align, seed: id as u64, created: false, live: false, esz: 0 });
+                    let mut oracle = None;
+                    if h.off() != off0 || h.commit() != commit0 {
+                        oracle = Some(format!("failed allocation changed the arena: {} (was off={off0} commit={commit0})", h.oc()));
+                    } else if want + bytes <= h.cap {
+                        oracle = Some(format!("allocation of {bytes} bytes align {align} failed although [{want}, {}) fits capacity {}", want + bytes, h.cap));
+                    }
+                    (format!("err {}", h.oc()), oracle.or_else(|| h.check_all()))
+                }
+            }
+        }
+        ["grow", blk, new] => {
+            let (Ok(blk), Ok(new)) = (blk.parse::<usize>(), new.parse::<usize>()) else { return bad() };
+            let Some(b) = h.blocks.get(blk).cloned() else { return bad() };
+            if !b.live || new < b.len || new > MAX_BYTES {
+                return bad();
+            }
+            let (Ok(old_l), Ok(new_l)) = (Layout::from_size_align(b.len, b.align), Layout::from_size_align(new, b.align)) else { return bad() };
+            let (off0, commit0) = (h.off(), h.commit());
+            let tail = b.beg + b.len == off0;
+            let old_ptr = NonNull::new(h.bptr(b.beg)).unwrap();
+            let r = unsafe { h.arena().grow(old_ptr, old_l, new_l) };
+            match r {
+                Ok(p) => {
+                    let ptr = p.as_ptr() as *mut u8 as usize;
+                    let len = p.len();
+                    let beg = ptr.wrapping_sub(h.base);
+                    let moved = ptr != old_ptr.as_ptr() as usize;
+                    let mut oracle = None;
+                    if ptr % b.align != 0 {
+                        oracle = Some(format!("misaligned block {blk}: addr mod {} = {}", b.align, ptr % b.align));
+                    } else if ptr < h.base || beg + len > h.cap {
+                        oracle = Some(format!("out-of-reservation block {blk}: [{beg}, {}) cap {}", beg.wrapping_add(len), h.cap));
+                    } else if len != new {
+                        oracle = Some(format!("grown block {blk} has {len} bytes for a request of {new}"));
+                    } else if beg + len > h.commit() || beg + len > h.off() {
+                        oracle = Some(format!("grown block {blk} ends above {}", h.oc()));
+                    } else if tail && moved {
+                        oracle = Some(format!("tail block {blk} moved on grow"));
+                    } else if moved && beg < off0 {
+                        oracle = Some(format!("grown block {blk} moved to {beg} below the old offset {off0}"));
+                    }
+                    if oracle.is_some() && (ptr < h.base || beg.saturating_add(len) > h.commit()) {
+                        h.blocks[blk].live = false;
+                        return (format!("ok beg={beg} len={len} moved={} {}", moved as u8, h.oc()), oracle);
+                    }
+                    if oracle.is_none() {
+                        let bp = h.bptr(beg);
+                        if let Some(j) = (0..b.len).find(|&j| unsafe { bp.add(j).read_volatile() } != pat(b.seed, j)) {
+                            oracle = Some(format!("grow of block {blk} lost its contents at byte {j} (moved={})", moved as u8));
+                        }
+                    }
+                    let sum = digest_at(h.base as *const u8, beg, len);
+                    h.blocks[blk].beg = beg;
+                    h.blocks[blk].len = len;
+                    let nb = h.blocks[blk].clone();
+                    h.write_pattern(&nb);
+                    let oracle = oracle.or_else(|| h.check_all());
+                    (format!("ok beg={beg} len={len} moved={} {} sum={sum}", moved as u8, h.oc()), oracle)
+                }
+                Err(_) => {
+                    let mut oracle = None;
+                    let fits = if tail { off0 + (new - b.len) <= h.cap } else { h.spec_beg(off0, b.align) + new <= h.cap };
+                    if h.off() != off0 || h.commit() != commit0 {
+                        oracle = Some(format!("failed grow changed the arena: {} (was off={off0} commit={commit0})", h.oc()));
+                    } else if fits {
+                        oracle = Some(format!("grow of block {blk} to {new} failed although it fits capacity {}", h.cap));
+                    }
+                    (format!("err {}", h.oc()), oracle.or_else(|| h.check_all()))
+                }
+            }
+        }
+        ["shrink", blk, new] => {
+            let (Ok(blk), Ok(new)) = (blk.parse::<usize>(), new.parse::<usize>()) else { return bad() };
+            let Some(b) = h.blocks.get(blk).cloned() else { return bad() };
+            if !b.live || new > b.len || b.beg + b.len != h.off() {
+                return bad();
+            }
+            let (Ok(old_l), Ok(new_l)) = (Layout::from_size_align(b.len, b.align), Layout::from_size_align(new, b.align)) else { return bad() };
+            let old_ptr = NonNull::new(h.bptr(b.beg)).unwrap();
+            let r = unsafe { h.arena().shrink(old_ptr, old_l, new_l) };
+            match r {
+                Ok(p) => {
+                    let ptr = p.as_ptr() as *mut u8 as usize;
+                    let len = p.len();
+                    let mut oracle = None;
+                    if ptr != old_ptr.as_ptr() as usize || len != new {
+                        oracle = Some(format!("shrink of tail block {blk} returned [{}, +{len})", ptr.wrapping_sub(h.base)));
+                    } else if h.off() != b.beg + new {
+                        oracle = Some(format!("offset {} after shrinking tail block to end {}", h.off(), b.beg + new));
+                    }
+                    h.blocks[blk].len = new;
+                    let m = h.off();
+                    h.kill_above(m, Some(blk));
+                    (format!("ok beg={} len={len} moved=0 {}", ptr.wrapping_sub(h.base), h.oc()), oracle.or_else(|| h.check_all()))
+                }
+                Err(_) => (format!("err {}", h.oc()), Some("shrink failed".into())),
+            }
+        }
+        ["mark"] => {
+            h.marks.push(h.off());
+            (h.oc(), None)
+        }
+        ["reset", k] => {
+            let Ok(k) = k.parse::<usize>() else { return bad() };
+            let Some(&m) = h.marks.get(k) else { return bad() };
+            if m > h.off() {
+                return bad();
+            }
+            let commit0 = h.commit();
+            unsafe { h.arena().reset(m) };
+            h.kill_above(m, None);
+            let mut oracle = None;
+            if h.off() != m || h.commit() != commit0 {
+                oracle = Some(format!("after reset to {m}: {}", h.oc()));
+            }
+            (h.oc(), oracle.or_else(|| h.check_all()))
+        }
+        ["decommit"] => {
+            let off0 = h.off();
+            let commit0 = h.commit();
+            h.arena().decommit();
+            let mut oracle = None;
+            if h.off() != off0 || h.commit() > commit0 {
+                oracle = Some(format!("after decommit: {} (was off={off0} commit={commit0})", h.oc()));
+            }
+            (h.oc(), oracle.or_else(|| h.check_all()))
+        }
+        ["borrow"] => {
+            h.borrows.push(h.off());
+            (h.oc(), None)
+        }
+        ["release"] => {
+            let Some(saved) = h.borrows.pop() else { return bad() };
+            if saved > h.off() {
+                return bad();
+            }
+            // what `ScratchArena::drop` does
+            unsafe { h.arena().reset(saved) };
+            h.arena().decommit();
+            h.kill_above(saved, None);
+            let mut oracle = None;
+            if h.off() != saved {
+                oracle = Some(format!("after release to {saved}: {}", h.oc()));
+            }
+            (h.oc(), oracle.or_else(|| h.check_all()))
+        }
+        ["fill", blk, seed] => {
+            let (Ok(blk), Ok(seed)) = (blk.parse::<usize>(), seed.parse::<u64>()) else { return bad() };
+            let Some(b) = h.blocks.get_mut(blk) else { return bad() };
+            if !b.live {
+                return bad();
+            }
+            b.seed = seed;
+            let b = b.clone();
+            h.write_pattern(&b);
+            ("ok".into(), h.check_all())
+        }
+        ["sum", blk] => {
+            let Ok(blk) = blk.parse::<usize>() else { return bad() };
+            let Some(b) = h.blocks.get(blk) else { return bad() };
+            if !b.created {
+                return bad();
+            }
+            if b.beg + b.len > h.commit() {
+                return ("unreadable".into(), None);
+            }
+            (digest_at(h.base as *const u8, b.beg, b.len), None)
+        }
+        ["peek", off, len] => {
+            let (Ok(off), Ok(len)) = (off.parse::<usize>(), len.parse::<usize>()) else { return bad() };
+            if len > (1 << 20) || off > (1 << 40) {
+                return bad();
+            }
+            let hi = (off + len).min(h.commit());
+            if off >= hi {
+                return ("empty".into(), None);
+            }
+            (digest_at(h.base as *const u8, off, hi - off), None)
+        }
+        ["vec", esz, n] => {
+            let (Ok(esz), Ok(n)) = (esz.parse::<usize>(), n.parse::<usize>()) else { return bad() };
+            if n > (1 << 20) {
+                return bad();
+            }
+            let id = h.blocks.len();
+            h.blocks.push(Blk { beg: 0, len: 0, align: esz.max(1), seed: id as u64, created: false, live: false, esz });
+            match esz {
+                1 => vec_run::<u8>(h, id, n, |s, i| pat(s, i)),
+                2 => vec_run::<u16>(h, id, n, |s, i| u16::from_le_bytes(std::array::from_fn(|k| pat(s, 2 * i + k)))),
+                4 => vec_run::<u32>(h, id, n, |s, i| u32::from_le_bytes(std::array::from_fn(|k| pat(s, 4 * i + k)))),
+                8 => vec_run::<u64>(h, id, n, |s, i| u64::from_le_bytes(std::array::from_fn(|k| pat(s, 8 * i + k)))),
+                _ => {
+                    h.blocks.pop();
+                    bad()
+                }
+            }
+        }
+        ["vpush", blk, n] => {
+            let (Ok(blk), Ok(n)) = (blk.parse::<usize>(), n.parse::<usize>()) else { return bad() };
+            let Some(b) = h.blocks.get(blk) else { return bad() };
+            if !b.live || b.esz == 0 || b.len == 0 || b.len % b.esz != 0 || n > (1 << 20) {
+                return bad();
+            }
+            match b.esz {
+                1 => vec_run::<u8>(h, blk, n, |s, i| pat(s, i)),
+                2 => vec_run::<u16>(h, blk, n, |s, i| u16::from_le_bytes(std::array::from_fn(|k| pat(s, 2 * i + k)))),
+                4 => vec_run::<u32>(h, blk, n, |s, i| u32::from_le_bytes(std::array::from_fn(|k| pat(s, 4 * i + k)))),
+                8 => vec_run::<u64>(h, blk, n, |s, i| u64::from_le_bytes(std::array::from_fn(|k| pat(s, 8 * i + k)))),
+                _ => bad(),
+            }
+        }
+        _ => bad(),
+    }
+}
+
+/// `vec` / `vpush`: push `n` elements onto a real `Vec<T, &Arena>` (fresh, or re-adopted full from
+/// block `id`), keeping the buffer as block `id`. Growth goes through `try_reserve(1)` (the same
+/// `grow_amortized` path as `push`, but an allocation failure is an `Err` instead of an abort).
+fn vec_run<T: Copy>(h: &mut H, id: usize, n: usize, elem: impl Fn(u64, usize) -> T) -> Ans {
+    let esz = std::mem::size_of::<T>();
+    let start = h.blocks[id].clone();
+    let seed = start.seed;
+    // the arena outlives the Vec (which is forgotten before this function returns)
+    let arena: &Arena = unsafe { &*(&**h.arena.as_ref().unwrap() as *const Arena) };
+    let mut v: Vec<T, &Arena> = if start.live {
+        let cap = start.len / esz;
+        unsafe { Vec::from_raw_parts_in(h.bptr(start.beg) as *mut T, cap, cap, arena) }
+    } else {
+        Vec::new_in(arena)
+    };
+    let mut caps: Vec<usize> = vec![];
+    let mut oracle: Option<String> = None;
+    let mut last_sum = String::new();
+    let mut failed = false;
+    for _ in 0..n {
+        if v.len() == v.capacity() {
+            let old_cap = v.capacity();
+            let old_beg = if old_cap > 0 { v.as_ptr() as usize - h.base } else { 0 };
+            let (off0, commit0) = (h.off(), h.commit());
+            let tail = old_cap > 0 && old_beg + old_cap * esz == off0;
+            if v.try_reserve(1).is_err() {
+                failed = true;
+                let want_cap = next_cap(old_cap, v.len(), esz);
+                let fits = if old_cap == 0 {
+                    h.spec_beg(off0, esz) + want_cap * esz <= h.cap
+                } else if tail {
+                    off0 + (want_cap - old_cap) * esz <= h.cap
+                } else {
+                    h.spec_beg(off0, esz) + want_cap * esz <= h.cap
+                };
+                if h.off() != off0 || h.commit() != commit0 {
+                    oracle = oracle.or(Some(format!("failed Vec growth changed the arena: {}", h.oc())));
+                } else if fits {
+                    oracle = oracle.or(Some(format!("Vec growth to {want_cap} elements failed although it fits")));
+                }
+                break;
+            }
+            let cap = v.capacity();
+            caps.push(cap);
+            let ptr = v.as_mut_ptr() as usize;
+            let beg = ptr.wrapping_sub(h.base);
+            let len = cap * esz;
+            if ptr % esz != 0 {
+                oracle = oracle.or(Some(format!("misaligned block {id}: addr mod {esz} = {}", ptr % esz)));
+            } else if ptr < h.base || beg + len > h.cap || beg + len > h.commit() || beg + len > h.off() {
+                oracle = oracle.or(Some(format!("Vec buffer {id} [{beg}, {}) outside {} cap {}", beg.wrapping_add(len), h.oc(), h.cap)));
+                std::mem::forget(v);
+                h.blocks[id].live = false;
+                return (format!("ok beg={beg} len={len} caps={} {}", join(&caps), h.oc()), oracle);
+            } else if tail && beg != old_beg {
+                oracle = oracle.or(Some(format!("tail Vec buffer {id} moved on grow")));
+            }
+            if oracle.is_none() {
+                let bp = h.bptr(beg);
+                if let Some(j) = (0..old_cap * esz).find(|&j| unsafe { bp.add(j).read_volatile() } != pat(seed, j)) {
+                    oracle = Some(format!("Vec growth of block {id} lost its contents at byte {j}"));
+                }
+            }
+            last_sum = digest_at(h.base as *const u8, beg, len);
+            let b = &mut h.blocks[id];
+            b.beg = beg;
+            b.len = len;
+            b.align = esz;
+            b.created = true;
+            b.live = true;
+            b.esz = esz;
+            let nb = b.clone();
+            h.write_pattern(&nb);
+            if oracle.is_none() {
+                oracle = h.check_all();
+            }
+        }
+        let i = v.len();
+        v.push(elem(seed, i));
+    }
+    std::mem::forget(v);
+    let oracle = oracle.or_else(|| h.check_all());
+    let b = &h.blocks[id];
+    if failed {
+        (format!("err caps={} {}", join(&caps), h.oc()), oracle)
+    } else if !b.live {
+        (format!("ok none {}", h.oc()), oracle)
+    } else if caps.is_empty() {
+        (format!("ok beg={} len={} caps=- {}", b.beg, b.len, h.oc()), oracle)
+    } else {
+        (format!("ok beg={} len={} caps={} {} sum={last_sum}", b.beg, b.len, join(&caps), h.oc()), oracle)
+    }
+}
+
+fn join(xs: &[usize]) -> String {
+    if xs.is_empty() {
+        return "-".into();
+    }
+    xs.iter().map(|x| x.to_string()).collect::<Vec<_>>().join(",")
+}
